@@ -716,12 +716,12 @@ theorem inv_wMove (h : Inv idle s) (w : Wid) (st' : WSt)
 /-- a worker stops being alive: idle exit of an accepting worker (`q + idle ≤ now`), or death during start-up before it
 bound anything -/
 theorem inv_wGone (h : Inv idle s) (w : Wid) (st' : WSt) (hst : isAlive st' = false)
-    (hold : (∃ q, s.ws w = .accepting q ∧ q + idle ≤ s.now) ∨ s.ws w = .starting) :
+    (hold : (∃ q, s.ws w = .accepting q ∧ q + idle ≤ s.now) ∨ s.ws w = .starting ∨ s.ws w = .prechecked ∨ s.ws w = .bound) :
     Inv idle (emit idle { s with ws := upd s.ws w st' } (.exit w)) := by
   obtain ⟨heldI, effI, accSock, boundSock, noAcc, startI, noAnn, aliveI, accI, pathI, decI, quietI, badSpawn, badRet, monHist, freshI⟩ := h
   have hnacc : isAccepting st' = false := by cases st' <;> first | rfl | (simp [isAlive] at hst)
   have hnstart : inStartup st' = false := by cases st' <;> first | rfl | (simp [isAlive] at hst)
-  have hlive : s.ws w ≠ .unborn := by rcases hold with ⟨q, hq, _⟩ | hq <;> rw [hq] <;> simp
+  have hlive : s.ws w ≠ .unborn := by rcases hold with ⟨q, hq, _⟩ | hq | hq | hq <;> rw [hq] <;> simp
   constructor
   · exact heldI
   · exact effI
@@ -769,8 +769,10 @@ theorem inv_wGone (h : Inv idle s) (w : Wid) (st' : WSt) (hst : isAlive st' = fa
     obtain ⟨w', q', hs1, hw1, hq1⟩ := h2 hlt
     have he : w' ≠ w := by
       intro e; subst e
-      rcases hold with ⟨q, hq, hle⟩ | hq
+      rcases hold with ⟨q, hq, hle⟩ | hq | hq | hq
       · rw [hq] at hw1; cases hw1; omega
+      · rw [hq] at hw1; cases hw1
+      · rw [hq] at hw1; cases hw1
       · rw [hq] at hw1; cases hw1
     exact ⟨w', q', hs1, by simp only [upd, he, if_false]; exact hw1, hq1⟩
   · intro w' q' hw'
@@ -1344,7 +1346,7 @@ theorem inv_step {sh : LShape} (hn : sh.nlinkCheck = true) (hl : sh.listenFirst 
         · cases hst
           exact inv_wMove h w _ (by rw [hw]; rfl) (by rw [hw]; rfl) (by intro _; rw [hw]; rfl) (by intro hb; cases hb)
             (by simp) (by rw [hw]; simp) (by intro q hq; cases hq) (by intro q0 hq; rw [hw] at hq; cases hq)
-        · cases hst; exact inv_wGone h w _ rfl (Or.inr hw)
+        · cases hst; exact inv_wGone h w _ rfl (Or.inr (Or.inl hw))
       · cases hst
     next => cases hst
   | wClear w =>
@@ -1365,6 +1367,18 @@ theorem inv_step {sh : LShape} (hn : sh.nlinkCheck = true) (hl : sh.listenFirst 
     split at hst
     next hw => simp only [if_true] at hst; cases hst; exact inv_wListen h w hw
     next hw => exact absurd hw (h.noAnn w)
+    next => cases hst
+  | wLost w =>
+    simp only [step] at hst
+    split at hst
+    next hw =>
+      split at hst
+      · cases hst; exact inv_wGone h w _ rfl (Or.inr (Or.inr (Or.inl hw)))
+      · cases hst
+    next hw =>
+      split at hst
+      · cases hst
+      · cases hst; exact inv_wGone h w _ rfl (Or.inr (Or.inr (Or.inr hw)))
     next => cases hst
   | wAnnounce w =>
     simp only [step, hl] at hst
